@@ -1,3 +1,4 @@
+import PilotaModel.Lemmas.AsyncGen
 import PilotaModel.Lemmas.AsyncBinRV
 import PilotaModel.Lemmas.AsyncCmpSkip
 import PilotaModel.Lemmas.MsgSim
@@ -217,4 +218,33 @@ example : (match syncRead (.bin .be) .i32 [0, 0, 1], asyncRead (.bin .be) .i32 [
     | .err _, .err _ => true
     | _, _ => false) = true := by decide
 
+
+/-! ### generated types: the emitted `decode_async` (binary and little-endian async protocols) -/
+section Emitted
+open Pilota.TGen
+
+/-- the emitted async decoder depends only on the bytes the stream carries: any two delivery schedules of the same
+bytes (chunk boundaries anywhere, any number of `Pending` polls) give the same value or error and pull the same number
+of bytes — for every document and every declared type. -/
+theorem emitted_async_chunk_independent (e : Endian) (d : Doc) (n : String) (s s' : Stream) (h : flat s = flat s') :
+    adecode e d n s = adecode e d n s' := by
+  simp only [adecode, pulled_flat, h]
+
+/-- **emitted async = emitted in-memory on success, no over-read**: if the emitted `decode` of item `n` returns `v` from
+`bs` leaving `rest`, the emitted `decode_async` returns `v` for every delivery schedule of `bs` and pulls exactly the
+bytes the in-memory decoder consumed.  (`hb`: a Rust slice; the converse — an error whenever the in-memory decoder
+reports one — is proved for the runtime readers above (`async_err_if_sync_err`) and only checked by T1 for emitted
+types: `emitted_async_err_if_sync_err` is not proved.) -/
+theorem emitted_async_eq_sync_ok_partial (e : Endian) (d : Doc) (n : String) (bs : Bytes) (hb : bs.length < 2 ^ 63) (v : TVal) (rest : Bytes)
+    (h : decode (binRd e (some skipDepth)) d n bs = .ok (v, rest)) (s : Stream) (hs : flat s = bs) :
+    adecode e d n s = .ok (v, bs.length - rest.length) := by
+  simp only [adecode, pulled_flat, hs]
+  unfold decode at h
+  have hr : (binRd e (some skipDepth)).remaining bs = bs.length := rfl
+  rw [hr] at h
+  have := (adec_sim e d (3 * bs.length + 3) (3 * bs.length + 8)).1 (.ref n) bs v rest hb (Nat.le_refl _) h
+  rw [this]
+  rfl
+
+end Emitted
 end Pilota.Props.C12
